@@ -3,7 +3,9 @@
 Every cell of the generated template `otmpl` and of the block `oblk` reads its variables through the jinja
 `default` filter / `is defined`, so an instance with a data row (bulk row, single row, insert_as_block with
 data_sheet + data_row_id) and an instance with none (plain create_flow, insert_as_block with blank data columns)
-are both valid.  One index mixes bulk / single / data-less rows of the same template (and of the block used as a
+are both valid.  The data sheet holds 0 (header only), 1 or several rows, and `filter` operations derive further
+sheets from it that keep all, some or NONE of its rows: a bulk row over a sheet with zero rows stands for zero
+flows.  One index mixes bulk / single / data-less rows of the same template (and of the block used as a
 template of its own), and the template inserts the block with and without data, in both orders.
 
 A case is plain JSON (replayable); the workbook and — independently of the real code — the texts every instance
@@ -19,7 +21,7 @@ from .flows import rows_to_csv
 from .gen import sheets as G
 
 H = G.HEADERS
-IH = ["type", "sheet_name", "data_sheet", "data_row_id", "new_name", "template_arguments"]
+IH = ["type", "sheet_name", "data_sheet", "data_row_id", "new_name", "template_arguments", "operation"]
 ID_POOL = ["r1", "r2", "row 3", "A-B", "x - y", "7", "é1", "Zed", "q.9"]
 WORDS = ["alpha", "beta", "gamma", "delta"]
 OTHER_IDS = ["o1", "o2", "o3"]
@@ -45,7 +47,7 @@ def defs_cell(defs):
 
 def gen_mixed(rng: random.Random) -> dict:
     feats = set()
-    ids = rng.sample(ID_POOL, rng.choice([1, 2, 2, 3, 3, 4]))
+    ids = rng.sample(ID_POOL, rng.choice([0, 0, 0, 1, 1, 1, 2, 2, 2, 3, 3, 3, 4, 4]))     # 0: a header-only data sheet
     use_num = rng.random() < 0.6
     use_ref = rng.random() < 0.75
     use_items = rng.random() < 0.5
@@ -59,6 +61,20 @@ def gen_mixed(rng: random.Random) -> dict:
         if use_items:
             row["items"] = [rng.choice("xyz") + "1", rng.choice("xyz") + "2"]
         data.append(row)
+    # sheets derived by a `filter` operation: all / some / none of the rows kept (what is kept is computed by
+    # `sheet_rows`, not read off the real code)
+    views = []
+    for k in range(rng.choice([0, 1, 1, 2])):
+        if use_num and rng.random() < 0.5:
+            v = {"name": f"v{k + 1}", "of": "data", "field": "num", "op": ">", "value": rng.choice([-1, 2, 5, 9, 9])}
+        else:
+            v = {"name": f"v{k + 1}", "of": "data", "field": "word", "op": "==",
+                 "value": rng.choice([r["word"] for r in data]) if data and rng.random() < 0.5 else rng.choice(WORDS + ["omega"] * 2)}
+        views.append(v)
+    if rng.random() < 0.3:
+        views.append({"name": "ov", "of": "other", "field": "label", "op": "==", "value": rng.choice(["L1", "L3", "L9", "L9"])})
+    if views:
+        feats.add("filter_views")
     # declared arguments: none at all (an instance without data then has an EMPTY context) or defaulted ones
     targs = [] if rng.random() < 0.55 else [["extra", "", "dflt"]]
     bargs = [] if rng.random() < 0.6 else [["bword", "", "nobody"]]
@@ -139,17 +155,36 @@ def gen_mixed(rng: random.Random) -> dict:
             kinds.insert(rng.randrange(len(kinds) + 1), "dataless")
     blank_name_used = False
     insts = []
+    proto = {"data": data, "views": views}
     for k, kind in enumerate(kinds):
         inst = {"kind": kind, "tmpl": "oblk" if kind.startswith("blk") else "otmpl", "sheet": "", "row_id": "",
                 "new_name": f"N{k + 1}", "given": []}
         if kind in ("bulk", "single"):
-            inst["sheet"] = "data"
+            inst["sheet"] = rng.choice(["data"] * 2 + [v["name"] for v in views if v["of"] == "data"] * 3)
+            kept_none = [v["name"] for v in views if v["of"] == "data" and data and not sheet_rows(proto, v["name"])]
+            if kept_none and rng.random() < 0.4:
+                inst["sheet"] = rng.choice(kept_none)       # a filter that keeps nothing of a sheet that has rows
+            kept_some = [v["name"] for v in views if v["of"] == "data" and sheet_rows(proto, v["name"])]
+            if kind == "single" and kept_some and rng.random() < 0.4:
+                inst["sheet"] = rng.choice(kept_some)       # a row named through the filtered sheet
+            held = [r["ID"] for r in sheet_rows(proto, inst["sheet"])]
+            if kind == "single" and not held:
+                kind = kinds[k] = inst["kind"] = "bulk"       # no row to name: the sheet is instantiated in bulk
             if kind == "single":
-                inst["row_id"] = rng.choice(ids)
+                inst["row_id"] = rng.choice(held)
         elif kind in ("blk_data", "blk_bulk"):
-            inst["sheet"] = "other"
+            inst["sheet"] = rng.choice(["other"] + [v["name"] for v in views if v["of"] == "other"] * (3 if kind == "blk_bulk" else 0))
+            held = [r["ID"] for r in sheet_rows(proto, inst["sheet"])]
             if kind == "blk_data":
                 inst["row_id"] = rng.choice(OTHER_IDS)
+        if inst["sheet"] and not inst["row_id"]:
+            feats.add("bulk_rows_" + ("0" if not held else "1" if len(held) == 1 else "many"))
+            if not held:
+                feats.add("empty_by_filter" if sheet_rows(proto, "other" if inst["sheet"] == "ov" else "data") else "empty_header_only")
+            if inst["sheet"] not in ("data", "other"):
+                feats.add("bulk_over_filter_view")
+        elif inst["sheet"] not in ("", "data", "other"):
+            feats.add("single_over_filter_view")
         defs = bargs if inst["tmpl"] == "oblk" else targs
         if defs and rng.random() < 0.4:
             inst["given"] = [rng.choice(["E1", "E 2"])]
@@ -165,7 +200,28 @@ def gen_mixed(rng: random.Random) -> dict:
         if min(pos[("dataless",)]) < max(pos[("bulk", "single")]):
             feats.add("data_after_dataless")
     return {"mixed": True, "ids": ids, "data": data, "use_num": use_num, "use_ref": use_ref, "use_items": use_items,
-            "targs": targs, "bargs": bargs, "blk_more": blk_more, "trows": t, "insts": insts, "features": sorted(feats)}
+            "views": views, "targs": targs, "bargs": bargs, "blk_more": blk_more, "trows": t, "insts": insts,
+            "features": sorted(feats)}
+
+
+# ------------------------------------------------------------------ the rows a sheet holds (generator's own reading)
+
+
+def sheet_rows(case: dict, sheet: str) -> list:
+    """rows of `data`, of `other`, or of a sheet derived by a filter operation — in sheet order"""
+    if sheet == "data":
+        return list(case["data"])
+    if sheet == "other":
+        return [{"ID": i, "label": "L" + i[1:]} for i in OTHER_IDS]
+    v = next(v for v in case.get("views", []) if v["name"] == sheet)
+    rows = sheet_rows(case, v["of"])
+    if v["op"] == "==":
+        return [r for r in rows if r[v["field"]] == v["value"]]
+    return [r for r in rows if r[v["field"]] > v["value"]]
+
+
+def view_expression(v: dict) -> str:
+    return f"{v['field']}=='{v['value']}'" if v["op"] == "==" else f"{v['field']} > {v['value']}"
 
 
 # ------------------------------------------------------------------ workbook
@@ -198,7 +254,9 @@ def base_sheets(case: dict) -> dict:
 
 
 def head_rows(case: dict) -> list:
-    return [{"type": "data_sheet", "sheet_name": "data"}, {"type": "data_sheet", "sheet_name": "other"},
+    derived = [{"type": "data_sheet", "sheet_name": v["of"], "new_name": v["name"],
+                "operation": "filter|expression;" + view_expression(v)} for v in case.get("views", [])]
+    return [{"type": "data_sheet", "sheet_name": "data"}, {"type": "data_sheet", "sheet_name": "other"}] + derived + [
             {"type": "template_definition", "sheet_name": "otmpl", "template_arguments": defs_cell(case["targs"])},
             {"type": "template_definition", "sheet_name": "oblk", "template_arguments": defs_cell(case["bargs"])}]
 
@@ -217,8 +275,8 @@ def expand(case: dict, insts: list) -> list:
     out = []
     for inst in insts:
         if inst["sheet"] and not inst["row_id"]:
-            for i in (case["ids"] if inst["sheet"] == "data" else OTHER_IDS):
-                out.append(dict(inst, row_id=i, kind=inst["kind"] + "_row"))
+            for r in sheet_rows(case, inst["sheet"]):       # zero rows: zero flows
+                out.append(dict(inst, row_id=r["ID"], kind=inst["kind"] + "_row"))
         else:
             out.append(inst)
     return out
